@@ -1,5 +1,6 @@
 import Driver.Proto
 import PqModel.FileCodecsTyped
+import PqModel.FileCodecsGo
 
 /-! C01 ops: one data page of a column of any physical type × value encoding, in the data page v1
 body framing or the v2 layout, through the file model's writer (`mkPage` + `pack`: MIRROR encoders)
@@ -64,7 +65,9 @@ def showTriple (t : PType) (x : Triple) : String :=
 /-- `c01.enc <ptype> <flba len> <enc> <v1 0/1> <maxrep> <maxdef> <reps> <defs> <vals: hex,...>` ->
     `ok <admissible 0/1> <reps hex> <defs hex> <vals hex>` (v1: the whole body is in the last
     field); `c01.dec <ptype> <flba len> <enc> <v1 0/1> <maxrep> <maxdef> <nvals> <reps hex> <defs hex>
-    <vals hex>` -> `ok <triples v/rep/def,...>` or `err`. -/
+    <vals hex>` -> `ok <triples v/rep/def,...>` or `err`; `c01.decgo` = the same page through the
+    reader built from the MIRRORS of the Go decoders (`mkCodecGo`), the recycled decode buffers
+    holding `0xA5…` / `7,7,…`. -/
 def handle (toks : List String) : Option String :=
   match toks with
   | ["c01.enc", pt, fl, en, v1, mr, md, reps, defs, vals] => some <|
@@ -95,6 +98,22 @@ def handle (toks : List String) : Option String :=
         let cs : ColSpec := ⟨t, e⟩
         if !cs.supported then "unsupported" else
         let c := mkCodec cs.val (plainOf t) (v1 == "1") (mr, md) id some
+        let g : Page (List Nat) := ⟨nv, reps, defs, false, vals⟩
+        match readPage false c (mr, md) [] g with
+        | none => "err"
+        | some p => s!"ok {showList (showTriple t) p}"
+    | _, _, _, _, _, _, _, _ => "bad-op"
+  | ["c01.decgo", pt, fl, en, v1, mr, md, nv, reps, defs, vals] => some <|
+    match parseNat? fl, venc? en, parseNat? mr, parseNat? md, parseNat? nv, parseHexN? reps, parseHexN? defs,
+        parseHexN? vals with
+    | some fl, some e, some mr, some md, some nv, some reps, some defs, some vals =>
+      match ptype? pt fl with
+      | none => "bad-op"
+      | some t =>
+        let cs : ColSpec := ⟨t, e⟩
+        if !cs.supported then "unsupported" else
+        let stale : Plain.Bytes := List.replicate 97 0xA5
+        let c := mkCodecGo (cs.goVal stale) (goPlainOf t) (List.replicate 13 7) (v1 == "1") (mr, md) id some
         let g : Page (List Nat) := ⟨nv, reps, defs, false, vals⟩
         match readPage false c (mr, md) [] g with
         | none => "err"
